@@ -603,6 +603,11 @@ class Evaluator(object):
                 r = self.eval(node['r'], env, g, fn, chain)
             else:
                 r = self.eval(node['r'], env, guards, fn, chain)
+            if node['op'] in ('+', '-', '*') and l is not None and r is not None and l[0] == 'lit' and r[0] == 'lit' and l[1].isdigit() and r[1].isdigit():
+                a_, b_ = int(l[1]), int(r[1])
+                v_ = a_ + b_ if node['op'] == '+' else (a_ * b_ if node['op'] == '*' else a_ - b_)
+                if v_ >= 0:
+                    return ('lit', str(v_))  # arithmetic on literals (named constants read through) is its value
             return ('bin', node['op'], l, r)
         if k == 'Unary':
             op = {'Not': '!', 'Neg': '-'}.get(node['op'], node['op'])
